@@ -6,7 +6,8 @@ package main
 const modulePath = "github.com/elliotchance/gedcom/v39"
 
 type tierSpec struct {
-	Cases    int   // outer cases 0..Cases-1
+	First    int   // first outer case
+	Cases    int   // outer cases First..First+Cases-1
 	MaxPaths int   // per case (0 = default 200000)
 	MaxSteps int64 // per path (0 = default)
 	Split    int   // >0: split each case by its decision frontier at this fork depth
@@ -50,6 +51,124 @@ func harnessDir(dir string) string {
 }
 
 var registry = []propertySpec{
+	{
+		ID:    "SMOKE",
+		Files: map[string][]string{"html": {"zz_verif_smoke.go"}, "q": {"zz_verif_smoke.go"}},
+		Harnesses: []harnessSpec{
+			{Name: "VerifSmoke_Publish", Pkg: "html", Quick: tierSpec{Cases: 1}, Thorough: tierSpec{Cases: 1}, Sched: -1, Bounds: "engine smoke test"},
+			{Name: "VerifSmoke_Query", Pkg: "q", Quick: tierSpec{Cases: 11}, Thorough: tierSpec{Cases: 11}, Sched: -1, Bounds: "engine smoke test"},
+		},
+	},
+	{
+		ID:    "C01",
+		Files: map[string][]string{"": {"zz_verif_lib.go", "zz_verif_c01.go"}},
+		Harnesses: []harnessSpec{
+			{Name: "VerifC01_Forest", Quick: tierSpec{Cases: 8, Split: 2}, Thorough: tierSpec{First: 8, Cases: 8, Split: 3}, Sched: -1,
+				Bounds: "every forest shape with <= 3 nodes (8 shapes); quick: per node a tag from 5 root / 5 child tags (INDI, FAM, specialised, unknown, numeric / NAME, DATE, _UID, digit-leading, HUSB under FAM), value of length 0/2, pointer of length 0/1; thorough: 8+8 tags, value length 0/1/3, pointer length 0/2; printable ASCII, all value and pointer bytes and the BOM flag symbolic"},
+			{Name: "VerifC01_Depth", Quick: tierSpec{Cases: 6}, Thorough: tierSpec{Cases: 7}, Sched: -1,
+				Bounds: "chains of nesting depth 8..13 (thorough: and 99) with a symbolic leaf value"},
+			{Name: "VerifC01_AllTags", Quick: tierSpec{Cases: 2 * 167}, Thorough: tierSpec{Cases: 2 * 167}, Sched: -1,
+				Bounds: "each of the 167 registered tags as root record and as child, symbolic value (0 or 2 bytes) and pointer (0 or 2 bytes)"},
+		},
+		Assumptions: []string{"values are printable ASCII (0x20-0x7e) without leading/trailing blank; pointers are bytes 0x41-0x7e (no '@', no blank)", "documents are built through the public API (NewDocument, AddIndividual, AddFamily, SetHusband(Pointer), SetWife, AddChild, NewNode, AddNode)"},
+		Outside:     "forests with more than 3 nodes except chains, values longer than 3 bytes, control characters and non-ASCII bytes in values, pointers containing blanks",
+	},
+	{
+		ID:    "C02",
+		Files: map[string][]string{"": {"zz_verif_lib.go", "zz_verif_decode_lib.go", "zz_verif_c02.go"}},
+		Harnesses: []harnessSpec{
+			{Name: "VerifC02_Levels", Quick: tierSpec{Cases: 8}, Thorough: tierSpec{First: 8, Cases: 4, Split: 3}, Sched: -1,
+				Bounds: "1..2 (thorough: 3) lines x {AllowMultiLine} x {AllowInvalidIndents}; per line: symbolic level digit 0..L, tag from 7 (NOTE INDI FAM HUSB NAME ZZ 7), optional 1-byte xref, 1 or 2 blanks, value of 0/1/2 printable bytes (incl. blank, '@', digits), terminator LF/CR/CRLF/LFLF"},
+		},
+		Assumptions: []string{"lines are sentences of the line grammar (unparsable lines: C03)", "an over-deep first line with AllowInvalidIndents and family-role lines before any family are outside what the reference defines (C03 covers them)"},
+		Outside:     "more than 3 lines, values longer than 2 bytes, control and non-ASCII bytes in values, tags outside the 7-tag alphabet, levels >= 4",
+	},
+	{
+		ID:    "C03",
+		Files: map[string][]string{"": {"zz_verif_lib.go", "zz_verif_decode_lib.go", "zz_verif_c02.go", "zz_verif_c03.go"}},
+		Harnesses: []harnessSpec{
+			{Name: "VerifC03_Bytes", Quick: tierSpec{Cases: 28}, Thorough: tierSpec{First: 28, Cases: 8, Split: 4}, Sched: -1,
+				Bounds: "every input of 0..6 (thorough: 7 and 8) ASCII bytes (all bytes symbolic, 0x00-0x7f) x both decoder options"},
+			{Name: "VerifC03_Adversarial", Quick: tierSpec{Cases: 40}, Thorough: tierSpec{Cases: 40}, Sched: -1,
+				Bounds: "10 hostile file templates (first line at level > 0, HUSB/WIFE/CHIL before or outside a family, record tags nested, tag of arbitrary bytes, unparsable middle line, BOM with CR/LF runs) with symbolic level digit 0..9 and 2 symbolic value bytes x both options"},
+			{Name: "VerifC02_Levels", Quick: tierSpec{Cases: 8}, Thorough: tierSpec{First: 8, Cases: 4, Split: 3}, Sched: -1,
+				Bounds: "the C02 line-grammar harness (its totality assertions)"},
+		},
+		Assumptions: []string{"reader errors other than EOF are not injected"},
+		Outside:     "inputs longer than 7 arbitrary bytes outside the templates, bytes >= 0x80, 1 MB lines, process-level behaviour, native fuzzing",
+	},
+	{
+		ID:    "C07",
+		Files: map[string][]string{"": {"zz_verif_lib.go", "zz_verif_c07.go"}},
+		Harnesses: []harnessSpec{
+			{Name: "VerifC07_Copy", Quick: tierSpec{Cases: 6}, Thorough: tierSpec{Cases: 6}, Sched: -1,
+				Bounds: "trees of 1..3 nodes (star and chain), every node one of 8 kinds (plain, BIRT, RESI, EVEN, DATE in 5 forms, _UID valid/malformed, NAME, PLAC) with symbolic value bytes / year digits"},
+			{Name: "VerifC07_Permute", Quick: tierSpec{Cases: 3}, Thorough: tierSpec{Cases: 4, Split: 3}, Sched: -1,
+				Bounds: "root with 2 or 3 children of the 8 kinds, optionally one grandchild (plain or DATE) each; all 2!/3! orders"},
+			{Name: "VerifC07_Symmetry", Quick: tierSpec{Cases: 4}, Thorough: tierSpec{Cases: 4}, Sched: -1,
+				Bounds: "two independent chains of 1..2 nodes of the 8 kinds with symbolic data"},
+			{Name: "VerifC07_Edit", Quick: tierSpec{Cases: 18}, Thorough: tierSpec{Cases: 18}, Sched: -1,
+				Bounds: "trees of 1..3 nodes x {insert plain node, delete plain leaf, change plain value} at every position"},
+		},
+		Assumptions: []string{"node values: one symbolic byte (A-Z) or symbolic year 1000..2999"},
+		Outside:     "trees with more than 3 (permute: 7) nodes, two simultaneous edits, individuals and families inside documents (covered by C13/C10 harnesses)",
+	},
+	{
+		ID:    "C08",
+		Files: map[string][]string{"": {"zz_verif_lib.go", "zz_verif_c07.go", "zz_verif_c08.go"}},
+		Harnesses: []harnessSpec{
+			{Name: "VerifC08_Diff", Quick: tierSpec{Cases: 18, Split: 2}, Thorough: tierSpec{Cases: 18, Split: 2}, Sched: -1,
+				Bounds: "two independent trees: root with 0..2 children (plain with symbolic value in {A,B,C}, BIRT, DATE with symbolic year), first child optionally with a grandchild; then every sequence of two diff operations from {String, IsDeepEqual, Sort, Tag}"},
+			{Name: "VerifC08_Equal", Quick: tierSpec{Cases: 6}, Thorough: tierSpec{Cases: 6}, Sched: -1,
+				Bounds: "a tree with 1..3 children (optional grandchild) and every reordering of a deep copy; plus one uniquely tagged extra leaf"},
+		},
+		Assumptions: []string{"values: one symbolic byte in A..C, years 1900..1901 (so that every Equals pattern among siblings occurs)"},
+		Outside:     "trees with more than 2 children per side in the independent case, sequences of more than two diff operations, node kinds other than plain/BIRT/DATE",
+	},
+	{
+		ID:    "C09",
+		Files: map[string][]string{"": {"zz_verif_lib.go", "zz_verif_c07.go", "zz_verif_c08.go", "zz_verif_c09.go"}},
+		Harnesses: []harnessSpec{
+			{Name: "VerifC09_MergeNodes", Quick: tierSpec{Cases: 18}, Thorough: tierSpec{Cases: 18}, Sched: -1,
+				Bounds: "two trees with equal root tag: 0..2 children each (plain {A,B,C} / BIRT / DATE), optional grandchild; result mutated at every node afterwards"},
+			{Name: "VerifC09_SelfMerge", Quick: tierSpec{Cases: 6}, Thorough: tierSpec{Cases: 6}, Sched: -1,
+				Bounds: "a tree with 1..3 pairwise non-equal children (optional grandchild) merged with itself"},
+			{Name: "VerifC09_MergeSlices", Quick: tierSpec{Cases: 9}, Thorough: tierSpec{Cases: 9}, Sched: -1,
+				Bounds: "two lists of 0..2 nodes (duplicates allowed), each element with a unique marker child; merge function equality / always / never"},
+		},
+		Assumptions: []string{"values: one symbolic byte in A..C, years 1900..1901"},
+		Outside:     "lists longer than 2, trees with more than 2 children per side, other node kinds",
+	},
+	{
+		ID:    "C12",
+		Files: map[string][]string{"": {"zz_verif_lib.go", "zz_verif_c12.go"}},
+		Harnesses: []harnessSpec{
+			{Name: "VerifC12_Jaro", Quick: tierSpec{Cases: 36}, Thorough: tierSpec{First: 36, Cases: 28, Split: 3}, Sched: -1,
+				Bounds: "JaroWinkler on every pair of byte strings (all 256 byte values) of lengths 0..5 x 0..5 (thorough 0..7 x 0..7), prefix size symbolic 0..10, boost threshold 0 or 0.7"},
+			{Name: "VerifC12_String", Quick: tierSpec{Cases: 16}, Thorough: tierSpec{Cases: 16}, Sched: -1,
+				Bounds: "StringSimilarity on printable ASCII strings of lengths 0..3 x 0..3"},
+			{Name: "VerifC12_Date", Quick: tierSpec{Cases: 18}, Thorough: tierSpec{Cases: 18}, Sched: -1,
+				Bounds: "two symbolic valid dates (years 1..9999, 9 granularity pairs), maxYears = 3 and symbolic in [0.001, 1000]"},
+			{Name: "VerifC12_DateMonotone", Quick: tierSpec{Cases: 9}, Thorough: tierSpec{Cases: 9}, Sched: -1,
+				Bounds: "three symbolic dates, maxYears = 3"},
+			{Name: "VerifC12_Weighted", Quick: tierSpec{Cases: 2}, Thorough: tierSpec{Cases: 2}, Sched: -1,
+				Bounds: "four symbolic component scores in [0,1]; default weights and symbolic non-negative weights summing to 1"},
+			{Name: "VerifC12_Individual", Quick: tierSpec{Cases: 81}, Thorough: tierSpec{Cases: 81}, Sched: -1,
+				Bounds: "two individuals: given name of 0..2 symbolic bytes over {a,b,c}, birth year symbolic 1800..1803 / unparsable / missing; lists of 2 and 1"},
+		},
+		Assumptions: []string{"float64 sums and products of symbolic scores are modelled as reals followed by a sound rounding operator (the upper bound is proved with slack 1e-10); Jaro scores are concrete IEEE values on every path (the byte comparisons are the symbolic part)"},
+		Outside:     "strings longer than 5 (thorough 7) bytes, non-ASCII names in StringSimilarity, family similarity with depth > 0, exact last-ulp behaviour of symbolic float expressions",
+	},
+	{
+		ID:    "C13",
+		Files: map[string][]string{"": {"zz_verif_lib.go", "zz_verif_c13.go"}},
+		Harnesses: []harnessSpec{
+			{Name: "VerifC13_History", Quick: tierSpec{Cases: 2}, Thorough: tierSpec{Cases: 2}, Sched: -1,
+				Bounds: "every history of 1 and 2 operations over 13 edits (AddNode, DeleteNode, SetNodes, AddIndividual new/clashing pointer, AddFamily, Set/Clear Husband/Wife, AddChild, Document.DeleteNode of a family / an individual) and 7 reads (views, Warnings, String, Compare, SurroundingSimilarity, CompareNodes+Sort, DeepCopy into another document) on a 3-person family; views read twice so that caches are warm"},
+		},
+		Assumptions: []string{"relation views that crash on dangling references are rendered as PANIC on both sides (crashes are C14's subject)"},
+		Outside:     "histories longer than 2 (thorough: 3) operations, publish and query as reads (their purity is asserted in the C14/C15 harnesses), other documents",
+	},
 	{
 		ID:    "C04",
 		Files: map[string][]string{"": {"zz_verif_lib.go", "zz_verif_c04.go"}},
